@@ -52,6 +52,29 @@ def check_tree(inp):
         st = np.stack(ks)
         if (g < st.min(0) - 1e-4).any() or (g > st.max(0) + 1e-4).any():
           return f'{label}: outside the [min, max] hull for weights {weights}'
+  # weights are inputs too: numpy scalars / 0-d / shape-(1,) arrays, writable or read-only (what jax.device_get returns), are
+  # neither modified nor required to be writable, and the same call gives the same mean again
+  if n >= 1 and W > 0:
+    for mk_w in (lambda w: np.float32(w), lambda w: np.array(w, np.float64), lambda w: np.array([w], np.float32), 'readonly'):
+      if mk_w == 'readonly':
+        ws = [np.array(w, np.float32) for w in weights]
+        for a in ws:
+          a.setflags(write=False)
+      else:
+        ws = [mk_w(w) for w in weights]
+      keep_w = [np.array(a, copy=True) for a in ws]
+      try:
+        first = tree_util.tree_mean(list(zip(trees, ws)))
+        second = aggregator.mean_aggregator().apply(((str(i).encode(), t, w) for i, (t, w) in enumerate(zip(trees, ws))), None)[0]
+      except Exception as e:  # pylint: disable=broad-except
+        return f'weights of type {type(ws[0]).__name__}{getattr(ws[0], "shape", "")} (read-only: {mk_w == "readonly"}): {type(e).__name__}: {str(e)[:120]}'
+      if any(not np.array_equal(a, b) for a, b in zip(ws, keep_w)):
+        return (f'the weights passed in were modified: {[np.asarray(a).tolist() for a in ws]} after the call, '
+                f'{[np.asarray(a).tolist() for a in keep_w]} before (numpy += on the caller\'s object)')
+      for g1, g2, w_ in zip(leaves(first), leaves(second), want):
+        if not (np.allclose(np.asarray(g1).reshape(w_.shape), w_, rtol=1e-4, atol=1e-5) and
+                np.allclose(np.asarray(g2).reshape(w_.shape), w_, rtol=1e-4, atol=1e-5)):
+          return f'aggregating the same (trees, numpy weights) twice gives {np.asarray(g1)} then {np.asarray(g2)}, the mean is {w_}'
   s = tree_util.tree_sum(t for t in trees)
   for g, ks in zip(leaves(s), zip(*map(leaves, keep))):
     if not np.allclose(np.asarray(g), np.sum(np.stack(ks), 0), rtol=1e-4, atol=1e-5):
